@@ -14,9 +14,9 @@ import (
 // injector fails the n-th matching file operation while armed.
 type injector struct {
 	armed   bool
-	n       int    // fail the n-th event (1-based) among all events while armed
-	partial bool   // for writes: leave a torn prefix behind
-	count   int    // events seen while armed
+	n       int  // fail the n-th event (1-based) among all events while armed
+	partial bool // for writes: leave a torn prefix behind
+	count   int  // events seen while armed
 	fired   *FSEvent
 	root    string
 	rngPick func(int) int
